@@ -438,11 +438,15 @@ pub struct Variant {
     pub empty_seq_deletes: bool,
     /// no variation tuple supplied = the default instance (all coordinates 0) for FeatureVariations
     pub none_is_default_instance: bool,
+    /// where the walk resumes when a nested lookup consumed glyphs beyond the matched input: false = HarfBuzz
+    /// (never before the glyph the nested lookup was applied to, i.e. that glyph is examined again), true = the
+    /// literal reading (after the matched input, of which that glyph is a member, i.e. after it)
+    pub resume_after_applied: bool,
 }
 
 impl Default for Variant {
     fn default() -> Self {
-        Variant { seq: SeqMode::Hb, empty_seq_deletes: true, none_is_default_instance: false }
+        Variant { seq: SeqMode::Hb, empty_seq_deletes: true, none_is_default_instance: false, resume_after_applied: false }
     }
 }
 
@@ -480,6 +484,7 @@ pub const T_NEGATIVE_LENGTH: u32 = 1 << 5;
 pub const T_DEPTH_CAP: u32 = 1 << 6;
 pub const T_VARIATION_MATCHED: u32 = 1 << 7;
 pub const T_CONTEXT_MATCHED: u32 = 1 << 8;
+pub const T_END_CLAMPED: u32 = 1 << 9;
 
 #[derive(Clone, Debug, PartialEq, Eq)]
 pub struct Res {
@@ -880,9 +885,17 @@ impl<'a> Interp<'a> {
                     self.touched |= T_NEGATIVE_LENGTH;
                     end = i as isize;
                 }
-            } else if end < p as isize {
-                delta += p as isize - end;
-                end = p as isize;
+            } else {
+                // the glyph at `p` disappears only through an empty Sequence table
+                let deleted = delta < 0 && self.prog.lookups.get(nli as usize).map_or(false, |l| l.lookup_type() == 2);
+                if !deleted && end < p as isize + 1 {
+                    self.touched |= T_END_CLAMPED;
+                }
+                let min_end = if self.var.resume_after_applied && !deleted { p as isize + 1 } else { p as isize };
+                if end < min_end {
+                    delta += min_end - end;
+                    end = min_end;
+                }
             }
             if self.var.seq == SeqMode::Hb && self.sw & SW_SEQ_UNBOUNDED == 0 {
                 // HarfBuzz apply_lookup(): n new glyphs are assumed to follow the current position, n removed
